@@ -11,7 +11,7 @@ META = dict(
     functions=['atomman/core/System.py:System.supersize,rotate,normalize,box_set,atoms_prop,wrap', 'atomman/tools/miller.py:vector_crystal_to_cartesian,vector4to3', 'atomman/lammps/normalize.py:normalize',
                'atomman/dump/conventional_to_primitive/dump.py:dump', 'atomman/dump/primitive_to_conventional/dump.py:dump'],
     bounds=dict(quick='supersize: all LAMMPS-form cells (lengths [1,10], tilts 0 or 1e-3..5, origin within 5), 2 atoms anywhere in the cell, 7 multiplier tuples (replication count <= 12); rotate: 4 concrete cells x 6 integer matrices with |det| in {1,2,3,4}, 1 atom with symbolic coordinates in a sub-box of the cell + 1 concrete atom; conversions: 3 concrete crystals',
-                thorough='more multiplier tuples (count <= 24), rotate with 2 symbolic atoms and whole-cell sub-box partition'),
+                thorough='more multiplier tuples (count <= 24); rotate: every cell x every integer matrix of the tables, one symbolic atom, the whole cell as 8 sub-boxes with 200 s each (unfinished work-lists are reported as remaining)'),
     outside=['IEEE-754 rounding; atoms within 1e-4 of a face of the re-oriented cell (tolerance ladder) are assumed away', 'rotate on symbolic cells', 'pbc and masses are not carried by supersize (not part of the stated property)',
              'conventional<->primitive conversions: concrete replays only (basis checks run on concrete crystals)'],
     lemmas=[], cuts=[], assumptions=['dead-zone assumption on tilts'], trusted=[],
@@ -217,14 +217,14 @@ def cases(tier, seed=0):
     sizes = [(2, 1, 1), (1, 2, 3), (-2, 1, 1), (1, -3, 2), ((-1, 1), 1, 2), (2, (-2, 1), 1), (1, 1, (-1, 2))]
     if tier == 'thorough': sizes += [(2, 2, 3), ((-1, 2), (-1, 1), 2), (-2, -2, -2), (4, 1, 3)]
     for sz in sizes:
-        cs.append(Case('supersize_' + '_'.join(str(x).replace(' ', '') for x in sz), h_supersize(sz), bind=BIND, budget_s=170 if tier == 'quick' else 900, timeout_ms=15000,
+        cs.append(Case('supersize_' + '_'.join(str(x).replace(' ', '') for x in sz), h_supersize(sz), bind=BIND, budget_s=170 if tier == 'quick' else 400, timeout_ms=15000,
                        descr=f'supersize{sz} on a symbolic cell with 2 symbolic atoms'))
     cs.append(Case('supersize_refusals', h_supersize_refuse(), concrete_only=True, budget_s=60, descr='documented refusals of supersize'))
     combos = [('triclinic', 'lefthand'), ('ortho_origin', 'left_det2'), ('cubic', '110'), ('cubic', 'det3'), ('ortho_origin', 'swap'), ('ortho_origin', 'det4'), ('hex', 'shear'), ('hex', 'neg'), ('triclinic', '110'), ('triclinic', 'neg')]
     if tier == 'thorough': combos = list(itertools.product(CELLS, UVWS))
     for cn, un in combos:
         for n, sub in enumerate([[(0.05, 0.45)] * 3, [(0.55, 0.95), (0.05, 0.45), (0.55, 0.95)]] if tier == 'quick' else [[(a, a + 0.45) for a in lo] for lo in itertools.product((0.03, 0.52), repeat=3)]):
-            cs.append(Case(f'rotate_{cn}_{un}_{n}', h_rotate(cn, un, sub), bind=BIND, budget_s=120 if tier == 'quick' else 600, timeout_ms=10000, max_paths=3000, weight=2,
+            cs.append(Case(f'rotate_{cn}_{un}_{n}', h_rotate(cn, un, sub), bind=BIND, budget_s=120 if tier == 'quick' else 200, timeout_ms=10000, max_paths=3000, weight=2,
                            descr=f'rotate {cn} cell by {UVWS[un]} (|det| {int(round(abs(np.linalg.det(np.array(UVWS[un])))))}), one atom symbolic in sub-box {sub}'))
     cs.append(Case('rotate_refusals', h_rotate_refuse(), concrete_only=True, budget_s=60, descr='documented refusals of rotate; identity'))
     cs.append(Case('conversions', h_conversions(), concrete_only=True, budget_s=120, descr='conventional<->primitive on concrete crystals (replay only)'))
